@@ -191,9 +191,8 @@ class Node(object):
     def add_namespace(self, prefix: str, namespace: str, nsmap_id: int = None):
         if nsmap_id is None:
             nsmap_id = id(self.nsmap)
-        if prefix in self.nsmap:
-            self.nsmap[prefix] = namespace
-        else:
+        if self.nsmap.get(prefix) != namespace:
+            # the map may be shared with nodes outside this subtree: never write through it
             self.nsmap = copy.deepcopy(self.nsmap)
             self.nsmap[prefix] = namespace
 
